@@ -271,7 +271,7 @@ fn main() {
                 cases += 1;
                 let mut seen = std::collections::HashSet::new();
                 for (k, d) in r.viols {
-                    if (k.starts_with("config-access-out-of-window") || k.starts_with("config-access-stray") || k.starts_with("config-access-extra-bytes") || k.starts_with("config-access-after-refusal")) && seen.insert(k.clone()) {
+                    if (k.starts_with("config-access-out-of-window") || k.starts_with("config-access-stray") || k.starts_with("config-access-extra-bytes") || k.starts_with("config-access-after-refusal") || k.starts_with("config-read-value") || k.starts_with("config-write-value") || k.starts_with("config-access-coverage")) && seen.insert(k.clone()) {
                         c.add_violation(Violation::new("C10", format!("config-window:{}", k), format!("{} transport, region of 0x100 + {} bytes: {}", tk.name(), wnd, d)), "mmio-config-window", J::obj().set("kind", J::s("case")).set("case", J::s(d)), vec![]);
                     }
                 }
